@@ -636,7 +636,7 @@ Proof. intros lamb gamma w0 w H0 Hg. unfold g_sd_underdamped, sd_underdamped. fi
 """
 
 
-def _formula(repo, meth, keys, store):
+def _formula(repo, meth, keys):
     """the with energy_units("int") block of a _make_* method: omega = self.axis.data; cfce = <formula>; the formula is what is stored"""
     fn = _src_of(repo + "/quantarhei/qm/corfunctions/spectraldensities.py", "SpectralDensity." + meth)
     names = {}
@@ -659,13 +659,16 @@ def _formula(repo, meth, keys, store):
     wname, fname = body[0].targets[0].id, body[1].targets[0].id
     if wname in names or fname in names:
         raise Untranslatable("%s: a parameter name is reused" % meth)
-    # what is stored when no values are given: the formula
+    # what is stored when no values are given: the formula (added to or made the data: how components are composed is C09's subject)
     stores = [n for n in ast.walk(fn) if isinstance(n, ast.Call) and ast.unparse(n.func) in ("self._add_me", "self._make_me")]
-    if sorted(ast.unparse(c) for c in stores) != sorted(["self.%s(self.axis, values)" % store, "self.%s(self.axis, %s)" % (store, fname)]):
-        raise Untranslatable("%s: what is stored (%s)" % (meth, "; ".join(ast.unparse(c) for c in stores)))
-    tests = [s for s in _live(fn.body) if isinstance(s, ast.If) and ast.unparse(s.test) == "values is not None"]
-    if len(tests) != 1 or ast.unparse(tests[0].orelse[0]) != "self.%s(self.axis, %s)" % (store, fname) or len(tests[0].orelse) != 1:
-        raise Untranslatable("%s: the formula is not what is stored when no values are given" % meth)
+    ok = False
+    for store in ("_add_me", "_make_me"):
+        if sorted(ast.unparse(c) for c in stores) == sorted(["self.%s(self.axis, values)" % store, "self.%s(self.axis, %s)" % (store, fname)]):
+            tests = [s for s in _live(fn.body) if isinstance(s, ast.If) and ast.unparse(s.test) == "values is not None"]
+            ok = (len(tests) == 1 and len(tests[0].orelse) == 1 and ast.unparse(tests[0].orelse[0]) == "self.%s(self.axis, %s)" % (store, fname)
+                  and len(tests[0].body) == 1 and ast.unparse(tests[0].body[0]) == "self.%s(self.axis, values)" % store)
+    if not ok:
+        raise Untranslatable("%s: the formula is not what is stored when no values are given (%s)" % (meth, "; ".join(ast.unparse(c) for c in stores)))
     names[wname] = "w"
     return QExpr(names).e(body[1].value)
 
@@ -678,9 +681,9 @@ def spectral_densities(repo):
     if not (len(tr) == 1 and len(tr[0].handlers) == 1 and [ast.unparse(s) for s in _live(tr[0].body)] == ["ctime = params['cortime']"]
             and [ast.unparse(s) for s in _live(tr[0].handlers[0].body)] == ["gamma = params['gamma']", "ctime = 1 / gamma"]):
         raise Untranslatable("_make_overdamped_brownian: correlation time from the parameters")
-    out["od"] = _formula(repo, "_make_overdamped_brownian", {"cortime": "ctime", "reorg": "lamb"}, "_add_me")
-    out["ub"] = _formula(repo, "_make_underdamped_brownian", {"gamma": "gamma", "freq": "w0", "reorg": "lamb"}, "_add_me")
-    out["ud"] = _formula(repo, "_make_underdamped", {"gamma": "gamma", "freq": "w0", "reorg": "lamb"}, "_make_me")
+    out["od"] = _formula(repo, "_make_overdamped_brownian", {"cortime": "ctime", "reorg": "lamb"})
+    out["ub"] = _formula(repo, "_make_underdamped_brownian", {"gamma": "gamma", "freq": "w0", "reorg": "lamb"})
+    out["ud"] = _formula(repo, "_make_underdamped", {"gamma": "gamma", "freq": "w0", "reorg": "lamb"})
     return SD_TEXT % out, ["corfunctions/spectraldensities.py:_make_overdamped_brownian / _make_underdamped_brownian / _make_underdamped (formulas)"]
 
 
